@@ -72,6 +72,43 @@ def puddle_call(rng, tu, frozen):
     return c
 
 
+def puddle_frozen_nested_cases(rng, n):
+    """frozen-model PUDDLE on texts built so that a lexicon word is matched at a NON-initial position with both
+    boundary conditions met, and the chunk that precedes it comes back later: a frozen model that learns
+    anything while segmenting gives another answer for the later utterance than for that utterance alone"""
+    out = []
+    for k in range(n):
+        alpha = rng.sample('abcdefgh', 6)
+        words = []
+        while len(words) < 4:
+            w = [rng.choice(alpha) for _ in range(rng.randint(2, 4))]
+            if w not in words:
+                words.append(w)
+        window = 2 if k % 3 else 1
+        ending = rng.choice(words)[-window:]
+        chunk = [rng.choice(alpha) for _ in range(rng.randint(1, 3))] + ending
+        wa, wb, wc, wd = (rng.choice(words) for _ in range(4))
+        tu = [chunk + wa + wb, wc + chunk + wd, wc + chunk + wd, chunk + wd]
+        byfreq = k % 2 == 0
+        text, train = gens.lines(tu), gens.lines(words)
+        c = c01.puddle_case(tu, words, window, byfreq, 5, 'puddle-frozen-nested')
+        c['impl'] = lambda text=text, train=train, window=window, byfreq=byfreq: call_impl(
+            lambda: list(puddle.segment(list(text), train_text=list(train), window=window, by_frequency=byfreq)))
+
+        def oracle(o, text=text, train=train, window=window, byfreq=byfreq):
+            if o[0] != 'ok':
+                return None
+            for i, line in enumerate(text):
+                alone = list(puddle.segment([line], train_text=list(train), window=window, by_frequency=byfreq))
+                if alone != [o[1][i]]:
+                    return ('with a frozen model, utterance %d %r is segmented %r after the others and %r alone'
+                            % (i, line, o[1][i], alone[0]))
+            return None
+        c['oracle'] = oracle
+        out.append(c)
+    return out
+
+
 def baseline_call(rng, tu):
     """with or without re-seeding: the model receives the stream the call will consume"""
     text = gens.lines(tu)
@@ -228,6 +265,7 @@ def main():
         seed_cases.append(dict(op=1504, arg=[s2j(args), nruns, rnd], site='ag._setup_seed', desc={'args': args, 'nruns': nruns, 'family': 'ag-seeds'},
                                impl=impl, dec=lambda w: decode_result(w, j2text), oracle=oracle, nontrivial=lambda m: True))
     correspond(ck, seed_cases)
+    correspond(ck, puddle_frozen_nested_cases(rng, 300 if ck.thorough else 40))
     # AG with a fixed seed, single job, on the program built from the tree: same result on every call
     try:
         import agbuild
